@@ -258,6 +258,7 @@ Section Steps.
   Notation reload := (reload B valid metrics_ok).
   Notation rollback := (rollback B D digest D_eqb empty garbage valid metrics_ok).
   Notation update := (update B D digest D_eqb empty garbage valid metrics_ok).
+  Notation save_all := (save_all B empty garbage).
 
   (* a file-system operation: never touches the engine, every arrival during
      it meets the current engine, it can only fail by the oracle, and once the
@@ -708,20 +709,51 @@ Section Steps.
 
   (* ---- what the payload writes ---- *)
 
-  Lemma plan_keys hint pl q :
-    In q (map fst (plan B hint pl)) -> exists e, In e pl /\ target e = q.
+  Lemma order_field_In fixed hint items x :
+    In x (order_field B fixed hint items) <-> In x items.
   Proof.
-    unfold plan. rewrite in_map_iff. intros [[q' c] [<- H]]. apply in_flat_map in H as [f [_ H]].
-    eapply Permutation_in in H; [|apply Permutation_sym, arrange_perm].
-    unfold items_of in H. apply in_map_iff in H as [e [E He]]. apply filter_In in He as [He _].
-    exists e. split; [exact He|]. inversion E; reflexivity.
+    unfold order_field. rewrite !in_app_iff. split.
+    - intros [H|[H|H]].
+      + eapply Permutation_in in H; [|apply Permutation_sym, arrange_perm]. apply filter_In in H; tauto.
+      + apply filter_In in H; tauto.
+      + apply filter_In in H; tauto.
+    - intro H. destruct (refused B fixed x) eqn:Rf.
+      + right; left. apply filter_In; auto.
+      + destruct (hinted B hint x) eqn:Hh.
+        * left. eapply Permutation_in; [apply arrange_perm|]. apply filter_In. rewrite Rf, Hh; auto.
+        * right; right. apply filter_In. rewrite Rf, Hh; auto.
   Qed.
 
-  Lemma plan_covered hint pl q :
-    targets_covered pl = true -> In q (map fst (plan B hint pl)) -> covered q = true.
+  Lemma plan_In fixed hint pl x :
+    In x (plan B fixed hint pl) <-> exists e, In e pl /\ x = (target e, e_content e, escapes e).
   Proof.
-    intros T H. apply plan_keys in H as [e [He <-]].
-    unfold targets_covered in T. rewrite forallb_forall in T. apply T; exact He.
+    unfold plan. rewrite in_flat_map. split.
+    - intros [f [_ H]]. apply order_field_In in H.
+      unfold items_of in H. apply in_map_iff in H as [e [E He]]. apply filter_In in He as [He _].
+      exists e; split; [exact He|symmetry; exact E].
+    - intros [e [He ->]]. exists (e_field e). split; [destruct (e_field e); cbn; tauto|].
+      apply order_field_In. unfold items_of. apply in_map_iff. exists e. split; [reflexivity|].
+      apply filter_In. split; [exact He|destruct (e_field e); reflexivity].
+  Qed.
+
+  (* a name that stays inside its directory names a file the snapshot covers *)
+  Lemma escapes_false_covered (e : entry B) : escapes e = false -> covered (target e) = true.
+  Proof.
+    unfold escapes, target. destruct (e_field e); cbn [dir_area]; intro H; try reflexivity;
+      apply negb_false_iff, area_eqb_eq in H; unfold covered; rewrite H; reflexivity.
+  Qed.
+
+  (* the keys the save may touch lie in covered places: with the name check
+     because a refused name is not written, without it when the payload
+     happens to name covered places only *)
+  Lemma plan_covered fixed hint pl x :
+    fixed = true \/ targets_covered pl = true ->
+    In x (plan B fixed hint pl) -> refused B fixed x = false -> covered (ikey B x) = true.
+  Proof.
+    intros T H Rf. apply plan_In in H as [e [He ->]]. cbn [ikey fst].
+    destruct T as [->|T].
+    - apply escapes_false_covered. exact Rf.
+    - unfold targets_covered in T. rewrite forallb_forall in T. apply T; exact He.
   Qed.
 
   (* ---- roll-back ---- *)
@@ -747,6 +779,54 @@ Section Steps.
 
   Lemma engop_within s s' : engop s s' -> within (fun e => e = eng s \/ e = EBuilt (dsk s)) s s'.
   Proof. intros (_ & _ & X & _). exact X. Qed.
+
+  (* ---- SavePayloadContentToDisk ---- *)
+
+  (* the save met a name it refuses *)
+  Definition rejects (fixed : bool) (l : list (item B)) : Prop :=
+    fixed = true /\ exists x, In x l /\ snd x = true.
+
+  Lemma save_all_spec fixed l : forall s ok s',
+    save_all fixed l s = (ok, s') ->
+    eng s' = eng s /\ within (fun e => e = eng s) s s' /\
+    (flt s = NoFault -> flt s' = NoFault) /\
+    (ok = false -> flt s' = NoFault \/ rejects fixed l) /\
+    (ok = true -> (forall x, In x l -> refused B fixed x = false) /\
+                  deq (dsk s') (apply_list B (map fst l) (dsk s))) /\
+    (forall q, (forall x, In x l -> refused B fixed x = false -> ikey B x <> q) ->
+               lookup q (dsk s') = lookup q (dsk s)).
+  Proof.
+    induction l as [|x l IH]; intros s ok s'; cbn [Model.save_all].
+    - intro H; inversion H; subst. split; [reflexivity|]. split; [apply within_refl|]. split; [auto|].
+      split; [discriminate|]. split; [intros _; split; [intros x []|apply deq_refl]|auto].
+    - destruct (refused B fixed x) eqn:Rf.
+      { intro H; inversion H; subst. split; [reflexivity|]. split; [apply within_refl|]. split; [auto|].
+        split; [|split; [discriminate|auto]].
+        intros _. right. unfold refused in Rf. apply andb_true_iff in Rf as [Rf1 Rf2].
+        split; [exact Rf1|]. exists x; split; [left; reflexivity|exact Rf2]. }
+      destruct (store (ikey B x) (snd (fst x)) s) as [ok1 s1] eqn:S1. apply store_spec in S1 as (F1 & E1 & K1).
+      pose proof (fsop_within _ _ _ F1) as W1. destruct F1 as (G1 & _ & Q1 & N1).
+      destruct ok1.
+      + intro H. apply IH in H as (G2 & W2 & Q2 & N2 & D2 & K2).
+        split; [congruence|]. split.
+        { eapply within_trans; [exact W1|]. eapply within_weaken; [|exact W2]. cbn; intros e ->; exact G1. }
+        split; [intro Q; apply Q2, Q1; exact Q|]. split.
+        { intro Hok. destruct (N2 Hok) as [N|(Fx & y & Hy & Ey)]; [left; exact N|].
+          right. split; [exact Fx|]. exists y; split; [right; exact Hy|exact Ey]. }
+        split.
+        { intro Hok. destruct (D2 Hok) as [R2 D2']. split.
+          - intros y [<-|Hy]; [exact Rf|apply R2; exact Hy].
+          - cbn [map].
+            change (apply_list B (fst x :: map fst l) (dsk s))
+              with (apply_list B (map fst l) (set (ikey B x) (snd (fst x)) (dsk s))).
+            eapply deq_trans; [exact D2'|]. apply apply_list_ext. apply E1; reflexivity. }
+        intros q Hq. rewrite K2 by (intros y Hy; apply Hq; right; exact Hy).
+        apply K1. intro E. apply (Hq x); [left; reflexivity|exact Rf|symmetry; exact E].
+      + intro H; inversion H; subst. split; [exact G1|]. split; [exact W1|].
+        split; [intro Q; destruct (Q1 Q) as [X _]; discriminate|].
+        split; [intros _; left; apply N1; reflexivity|]. split; [discriminate|].
+        intros q Hq. apply K1. intro E. apply (Hq x); [left; reflexivity|exact Rf|symmetry; exact E].
+  Qed.
 
   Lemma rollback_spec hint d0 wr s r s' :
     rollback hint (snapshot d0) wr s = (r, s') ->
@@ -843,19 +923,21 @@ Section Steps.
 
   (* what is claimed about a finished run; k says where in the order hints the
      files of the payload start *)
-  Definition outcome (hint : list path) (rq : request B) (d : disk B) (f : fault)
+  Definition outcome (fixed : bool) (hs : list path) (rq : request B) (d : disk B) (f : fault)
              (r : result) (s' : st) (k : nat) : Prop :=
-    let dn := new_disk B (skipn k hint) rq d in
+    let dn := new_disk B fixed (skipn k hs) rq d in
     (r <> RollbackFailed -> Forall (fun e => served d e \/ served dn e) (arrivals s')) /\
     (r = Failed -> ceq (dsk s') d /\ served d (eng s')) /\
-    (r = Failed -> targets_covered (r_payload rq) = true ->
+    (r = Failed -> fixed = true \/ targets_covered (r_payload rq) = true ->
      forall p, covered p = false -> lookup p (dsk s') = lookup p d) /\
     (r = Ok -> deq (dsk s') dn /\ eng s' = EBuilt (dsk s') /\
-               valid (dsk s') = true /\ metrics_ok (dsk s') = true) /\
+               valid (dsk s') = true /\ metrics_ok (dsk s') = true /\
+               (fixed && names_escape (r_payload rq)) = false) /\
     (r = RollbackFailed ->
      (forall a b, ceq a b -> valid a = valid b) -> (forall a b, ceq a b -> metrics_ok a = metrics_ok b) ->
      valid d = true -> metrics_ok d = true ->
-     f <> NoFault /\ (valid dn = false \/ metrics_ok dn = false)).
+     f <> NoFault /\
+     ((fixed && names_escape (r_payload rq)) = true \/ valid dn = false \/ metrics_ok dn = false)).
 
   (* so far every transaction met the old engine *)
   Definition old_only (d : disk B) (s : st) : Prop :=
@@ -877,8 +959,15 @@ Section Steps.
     eapply Forall_impl; [|exact A]. cbn; intros e ->; left; apply served_old.
   Qed.
 
-  Lemma outcome_early hint rq d f s0 :
-    old_only d s0 -> dsk s0 = d -> outcome hint rq d f Failed s0 0.
+  Lemma within_old d s s' :
+    eng s' = eng s -> within (fun e => e = eng s) s s' -> old_only d s -> old_only d s'.
+  Proof.
+    intros E (x & S & A) [Eo Ao]. split; [congruence|]. rewrite S.
+    apply Forall_app; split; [|exact Ao]. eapply Forall_impl; [|exact A]. cbn; intros e ->; exact Eo.
+  Qed.
+
+  Lemma outcome_early fixed hs rq d f s0 :
+    old_only d s0 -> dsk s0 = d -> outcome fixed hs rq d f Failed s0 0.
   Proof.
     intros O D0. unfold outcome. cbn zeta.
     split; [intros _; apply old_arrivals; exact O|].
@@ -887,28 +976,37 @@ Section Steps.
     split; discriminate.
   Qed.
 
-  (* a file-system step of the update failed: roll back without reload *)
-  Lemma outcome_fs_failure hint rq d f s r s' k :
-    old_only d s -> flt s = NoFault ->
-    (targets_covered (r_payload rq) = true -> forall p, covered p = false -> lookup p (dsk s) = lookup p d) ->
+  (* a file-system step of the update failed (the oracle struck, or a file name
+     was refused): roll back without reload *)
+  Lemma outcome_fs_failure fixed hs hint rq d f s r s' k :
+    old_only d s ->
+    flt s = NoFault \/ (fixed && names_escape (r_payload rq)) = true ->
+    (f = NoFault -> flt s = NoFault) ->
+    (fixed = true \/ targets_covered (r_payload rq) = true ->
+     forall p, covered p = false -> lookup p (dsk s) = lookup p d) ->
     rollback hint (snapshot d) false s = (r, s') ->
-    outcome hint rq d f r s' k.
+    outcome fixed hs rq d f r s' k.
   Proof.
-    intros O Q U R. apply rollback_spec in R as (A & Bc & W & G & _ & Fq).
-    assert (r = Failed) as -> by (apply Fq; [exact Q|discriminate]).
+    intros O Q Qf U R. pose proof (rollback_not_ok _ _ _ _ _ _ R) as Rk.
+    apply rollback_spec in R as (A & Bc & W & G & _ & Fq).
     assert (O' : old_only d s').
     { destruct O as [Eo Ao]. destruct G as [G|[G _]]; [|discriminate]. split; [congruence|].
       destruct W as (x & S & Ax). rewrite S. apply Forall_app; split; [|exact Ao].
       eapply Forall_impl; [|exact Ax]. cbn. intros e [->|[X _]]; [exact Eo|discriminate]. }
     unfold outcome. cbn zeta.
     split; [intros _; apply old_arrivals; exact O'|].
-    split; [intros _; split; [intros p Hp; apply Bc; auto|destruct O' as [-> _]; apply served_old]|].
+    split; [intros ->; split; [intros p Hp; apply Bc; auto|destruct O' as [-> _]; apply served_old]|].
     split; [intros _ T p Hp; rewrite A by exact Hp; apply U; assumption|].
-    split; discriminate.
+    split; [intros ->; destruct Rk; discriminate|].
+    intros -> _ _ _ _.
+    assert (NF : flt s <> NoFault).
+    { intro Q0. assert (RollbackFailed = Failed) by (apply Fq; [exact Q0|discriminate]). discriminate. }
+    split; [intro Hf; apply NF, Qf, Hf|].
+    destruct Q as [Q|Q]; [contradiction|left; exact Q].
   Qed.
 
-  Lemma run_master hint rq d f r s' :
-    run hint rq d f = (r, s') -> exists k, outcome hint rq d f r s' k.
+  Lemma run_master fixed hs hint rq d f r s' :
+    run fixed hs hint rq d f = (r, s') -> exists k, outcome fixed hs rq d f r s' k.
   Proof.
     unfold Model.run, Model.update.
     set (si := init_state B d f).
@@ -926,14 +1024,14 @@ Section Steps.
     destruct (forallb e_decodable (r_payload rq)); cbn [negb].
     2:{ intro H; injection H as <- <-. exists 0. apply outcome_early; assumption. }
     (* CleanAll (apply_flows only) *)
-    set (cl := match r_handler rq with HApplyFlows => clean_all hint s0 | HConfiguration => (true, s0) end).
+    set (cl := match r_handler rq with HApplyFlows => clean_all hs s0 | HConfiguration => (true, s0) end).
     assert (C : exists okc s1, cl = (okc, s1) /\ fsop s0 s1 okc /\
                 (okc = true -> deq (dsk s1) (base (r_handler rq) d)) /\
                 (forall p, covered p = false -> lookup p (dsk s1) = lookup p d)).
     { unfold cl. destruct (r_handler rq).
       - exists true, s0. split; [reflexivity|]. split; [apply fsop_refl|].
         split; [intros _ p; rewrite D0; reflexivity|intros p _; rewrite D0; reflexivity].
-      - destruct (clean_all hint s0) as [okc s1] eqn:CA. exists okc, s1. split; [reflexivity|].
+      - destruct (clean_all hs s0) as [okc s1] eqn:CA. exists okc, s1. split; [reflexivity|].
         apply clean_all_spec in CA as (Fc & Ec & Kc). split; [exact Fc|]. split.
         + intros Hok p. rewrite Ec by exact Hok. rewrite lookup_base, D0. reflexivity.
         + intros p Hp. rewrite Kc by exact Hp. rewrite D0. reflexivity. }
@@ -941,30 +1039,42 @@ Section Steps.
     assert (F01 : fsop si s1 okc) by (eapply fsop_trans; eassumption).
     pose proof (fsop_old d _ _ _ Fc O0) as O1.
     destruct okc.
-    2:{ intro R. exists 0. eapply outcome_fs_failure; [exact O1| |intros _; exact Kc|exact R].
-        destruct Fc as (_ & _ & _ & N). apply N; reflexivity. }
+    2:{ intro R. exists 0.
+        assert (N1 : flt s1 = NoFault) by (destruct Fc as (_ & _ & _ & N); apply N; reflexivity).
+        eapply outcome_fs_failure; [exact O1|left; exact N1|intros _; exact N1|intros _; exact Kc|exact R]. }
     (* SavePayloadContentToDisk *)
-    set (pln := plan B (skipn (hk s1) hint) (r_payload rq)).
-    destruct (store_all pln s1) as [oks s2] eqn:SA. apply store_all_spec in SA as (Fs & Es & Ks).
-    assert (F02 : fsop si s2 oks) by (eapply fsop_trans; eassumption).
-    pose proof (fsop_old d _ _ _ Fs O1) as O2.
-    assert (U2 : targets_covered (r_payload rq) = true ->
+    set (pln := plan B fixed (skipn (hk s1) hs) (r_payload rq)).
+    destruct (save_all fixed pln s1) as [oks s2] eqn:SA.
+    apply save_all_spec in SA as (Gs & Ws & Qs & Ns & Ds & Ks).
+    assert (Q02 : flt si = NoFault -> flt s2 = NoFault).
+    { intro Q. apply Qs. destruct F01 as (_ & _ & Q1 & _). apply Q1; exact Q. }
+    pose proof (within_old d _ _ Gs Ws O1) as O2.
+    assert (U2 : fixed = true \/ targets_covered (r_payload rq) = true ->
                  forall p, covered p = false -> lookup p (dsk s2) = lookup p d).
     { intros T p Hp. rewrite Ks; [apply Kc; exact Hp|].
-      intro Hin. apply (plan_covered _ _ _ T) in Hin. congruence. }
+      intros x Hx Rf E. pose proof (plan_covered _ _ _ _ T Hx Rf) as C. congruence. }
     intro R0; exists (hk s1); revert R0.
     destruct oks.
-    2:{ intro R. eapply outcome_fs_failure; [exact O2| |exact U2|exact R].
-        destruct Fs as (_ & _ & _ & N). apply N; reflexivity. }
-    assert (Dn : deq (dsk s2) (new_disk B (skipn (hk s1) hint) rq d)).
-    { unfold new_disk. fold pln. eapply deq_trans; [apply Es; reflexivity|].
+    2:{ intro R. eapply outcome_fs_failure; [exact O2| |exact Q02|exact U2|exact R].
+        destruct (Ns eq_refl) as [N|(Fx & x & Hx & Ex)]; [left; exact N|right].
+        apply plan_In in Hx as (e & He & ->). cbn [snd] in Ex. rewrite Fx. cbn [andb].
+        unfold names_escape. apply existsb_exists. exists e; auto. }
+    destruct (Ds eq_refl) as [Rs Es].
+    assert (NE : (fixed && names_escape (r_payload rq)) = false).
+    { destruct fixed; [cbn [andb]|reflexivity].
+      destruct (names_escape (r_payload rq)) eqn:X; [|reflexivity]. exfalso.
+      unfold names_escape in X. apply existsb_exists in X as (e & He & Ee).
+      assert (Hin : In (target e, e_content e, escapes e) pln) by (apply plan_In; exists e; auto).
+      apply Rs in Hin. unfold refused in Hin. cbn [snd andb] in Hin. congruence. }
+    assert (Dn : deq (dsk s2) (new_disk B fixed (skipn (hk s1) hs) rq d)).
+    { unfold new_disk. fold pln. eapply deq_trans; [exact Es|].
       apply apply_list_ext. apply Ec; reflexivity. }
     (* reloadFlows *)
     destruct (reload s2) as [okr s3] eqn:RL.
     pose proof (reload_spec _ _ _ RL) as (O3 & B3).
     pose proof (engop_within _ _ O3) as W3. destruct O3 as (D3 & G3 & _ & Q3).
     destruct O2 as [E2 A2].
-    set (dn := new_disk B (skipn (hk s1) hint) rq d) in *.
+    set (dn := new_disk B fixed (skipn (hk s1) hs) rq d) in *.
     assert (P2 : forall e, e = eng s2 \/ e = EBuilt (dsk s2) -> served d e \/ served dn e).
     { intros e [->| ->]; [left; rewrite E2; apply served_old|right; apply served_ceq, deq_ceq; exact Dn]. }
     assert (S3 : Forall (fun e => served d e \/ served dn e) (seen s3)).
@@ -979,7 +1089,7 @@ Section Steps.
       split; [|discriminate]. intros _.
       destruct (reload_ok_valid _ _ RL) as [V M].
       split; [intro p; rewrite D3; apply Dn|]. split; [rewrite D3; apply B3; reflexivity|].
-      rewrite D3. split; assumption. }
+      rewrite D3. split; [assumption|]. split; assumption. }
     (* the reload failed: Restore, then reload again *)
     intro R. pose proof (rollback_not_ok _ _ _ _ _ _ R) as Rk.
     apply rollback_spec in R as (A & Bc & W & G & Eb & Fq).
@@ -1005,10 +1115,11 @@ Section Steps.
       rewrite (Vx x d), (Mx x d) by assumption. split; assumption. }
     split.
     - (* without any fault the roll-back cannot fail *)
-      intros ->. assert (Q2 : flt s2 = NoFault) by (destruct F02 as (_ & _ & Q & _); apply Q; reflexivity).
+      intros ->. assert (Q2 : flt s2 = NoFault) by (apply Q02; reflexivity).
       assert (RollbackFailed = Failed); [|discriminate].
       apply Fq; [apply Q3; exact Q2|]. intros _ x Hx _. apply restored_ok; exact Hx.
     - (* with a payload that validates and loads, the reload failed by the fault, which is then spent *)
+      right.
       destruct (valid dn) eqn:Vn; [|left; reflexivity].
       destruct (metrics_ok dn) eqn:Mn; [|right; reflexivity].
       exfalso.
